@@ -528,40 +528,47 @@ def run_driver_step(prop, step, tier, seed):
             nr.undecided = f"{step['name']}: pre-step failed: {pp.stdout[-500:]}"
             return nr
     os.environ.update(env_extra)
-    digests = []
     runs = 2 if step.get("twice") else 1
-    last = None
-    for i in range(runs):
-        try:
-            p = witness.run_driver(step["bin"], ["--search", "--seed", str(seed)] + list(step.get("args", [])), crate=step.get("crate", "replay"),
-                                   release=step.get("release", True), timeout=step.get("timeout", 3600))
-        except Exception as e:
-            nr.undecided = f"{step['name']}: driver could not be run: {e!r}"
-            return nr
-        for line in p.stdout.split("\n"):
-            line = line.strip()
-            if line.startswith("DIGEST"):
-                digests.append(line)
-            if line.startswith("{"):
-                try:
-                    last = json.loads(line)
-                except Exception:
-                    pass
-        if last is None:
-            nr.undecided = f"{step['name']}: driver produced no result (build failure?):\n" + p.stderr[-1500:]
-            return nr
-        if last.get("found"):
-            nr.violation = json.dumps(last)[:1500]
-            nr.witness = last
+    # thorough tier: the same driver under several seeds (every seed draws different random histories / values)
+    seeds = [seed] if tier == "quick" else [seed + 7919 * i for i in range(int(step.get("thorough_seeds", 8)))]
+    total_cases = 0
+    for sd in seeds:
+        digests = []
+        last = None
+        for i in range(runs):
+            try:
+                p = witness.run_driver(step["bin"], ["--search", "--seed", str(sd)] + list(step.get("args", [])), crate=step.get("crate", "replay"),
+                                       release=step.get("release", True), timeout=step.get("timeout", 3600))
+            except Exception as e:
+                nr.undecided = f"{step['name']}: driver could not be run: {e!r}"
+                return nr
+            for line in p.stdout.split("\n"):
+                line = line.strip()
+                if line.startswith("DIGEST"):
+                    digests.append(line)
+                if line.startswith("{"):
+                    try:
+                        last = json.loads(line)
+                    except Exception:
+                        pass
+            if last is None:
+                nr.undecided = f"{step['name']}: driver produced no result (build failure?):\n" + p.stderr[-1500:]
+                return nr
+            if last.get("found"):
+                nr.violation = json.dumps(last)[:1500]
+                nr.witness = last
+                break
+        if nr.violation:
             break
-    nr.wall = time.time() - t0
-    nr.cmd = "cd %s && cargo run --release --bin %s -- --search --seed %d%s" % (step.get("crate", "replay"), step["bin"], seed, " (run twice, digests compared)" if runs == 2 else "")
-    if not nr.violation:
         if runs == 2 and (len(digests) != 2 or digests[0] != digests[1]):
             nr.violation = "ids differ between two processes: " + repr(digests)
-        else:
-            nr.ok = True
-            nr.cases = int(last.get("searched", 0))
+            break
+        total_cases += int(last.get("searched", 0))
+    nr.wall = time.time() - t0
+    nr.cmd = "cd %s && cargo run --release --bin %s -- --search --seed %s%s" % (step.get("crate", "replay"), step["bin"], ",".join(str(x) for x in seeds), " (each run twice, digests compared)" if runs == 2 else "")
+    if not nr.violation:
+        nr.ok = True
+        nr.cases = total_cases
     return nr
 
 
